@@ -44,7 +44,9 @@ func ValidateSpec(text []byte, o SpecOpts) (out SpecOutcome) {
 		if e := recover(); e != nil {
 			out.Panic = fmt.Sprint(e)
 			out.Stack = string(debug.Stack())
-			validate.VerifResetPools()
+			if ResetPoolsOnPanic {
+				validate.VerifResetPools()
+			}
 		}
 	}()
 	doc, err := LoadSpec(text)
@@ -56,15 +58,22 @@ func ValidateSpec(text []byte, o SpecOpts) (out SpecOutcome) {
 
 // ValidateDoc validates an already loaded document.
 func ValidateDoc(doc *loads.Document, o SpecOpts) (out SpecOutcome) {
+	return ValidateDocWith(doc, o, strfmt.Default)
+}
+
+// ValidateDocWith validates an already loaded document with a caller-supplied format registry.
+func ValidateDocWith(doc *loads.Document, o SpecOpts, formats strfmt.Registry) (out SpecOutcome) {
 	defer func() {
 		if e := recover(); e != nil {
 			out.Loaded = true
 			out.Panic = fmt.Sprint(e)
 			out.Stack = string(debug.Stack())
-			validate.VerifResetPools()
+			if ResetPoolsOnPanic {
+				validate.VerifResetPools()
+			}
 		}
 	}()
-	v := validate.NewSpecValidator(doc.Schema(), strfmt.Default)
+	v := validate.NewSpecValidator(doc.Schema(), formats)
 	v.SetContinueOnErrors(o.Continue)
 	v.Options.StrictPathParamUniqueness = o.Strict
 	errs, warns := v.Validate(doc)
